@@ -66,7 +66,15 @@ def method(tree: ast.Module, designator: str):
     return fn
 
 
-def statement_range(fn, start: str, last: str) -> list[ast.stmt]:
+def statement_range(fn, start: str, last: str | None) -> list[ast.stmt]:
+    if last is None:
+        # ONE statement, wherever it is nested in the method (e.g. `payload = {…}` inside `if …: try: … if …:`): what the statement
+        # computes from the variables it reads; when it is reached is not part of the range
+        hits = [n for n in ast.walk(fn) if isinstance(n, ast.stmt) and n is not fn and ast.unparse(n).startswith(start)
+                and isinstance(n, (ast.Assign, ast.AnnAssign))]
+        if len(hits) != 1:
+            raise Unsupported(f"{fn.name}: {len(hits)} assignment statements start with {start!r} (need exactly one)")
+        return hits
     a = [i for i, st in enumerate(fn.body) if ast.unparse(st).startswith(start)]
     b = [i for i, st in enumerate(fn.body) if ast.unparse(st).startswith(last)]
     if len(a) != 1 or len(b) != 1 or a[0] > b[0]:
@@ -430,6 +438,12 @@ def translate_range(source: str, designator: str, start: str, last: str, lean_na
     for n in ast.walk(an["fn"]):
         if isinstance(n, ast.Name) and isinstance(n.ctx, ast.Store):
             tr.stores[n.id] = tr.stores.get(n.id, 0) + 1
+    # a local bound exactly once in the method, to a dataclass construction, is a record wherever it is read
+    for n in ast.walk(an["fn"]):
+        if isinstance(n, ast.Assign) and len(n.targets) == 1 and isinstance(n.targets[0], ast.Name) and tr.stores.get(n.targets[0].id) == 1 \
+                and isinstance(n.value, ast.Call) and isinstance(n.value.func, ast.Name) and n.value.func.id in cfg.dataclasses \
+                and n.value.func.id not in an["local"]:
+            tr.records[n.targets[0].id] = cfg.dataclasses[n.value.func.id]
     tr.cur_oracle = oracle and any((isinstance(n, ast.Call) and isinstance(n.func, ast.Name) and n.func.id == "str") or isinstance(n, ast.JoinedStr)
                                    for st in an["stmts"] for n in ast.walk(st))
     names = [var_name(v) for v in an["inputs"] + an["temporaries"] + an["outputs"]]
@@ -451,7 +465,8 @@ def translate_range(source: str, designator: str, start: str, last: str, lean_na
                      f"its arguments: `some v` = returned `v`, `none` = raised")
     notes += tr.notes
     res = outs[0] if len(outs) == 1 else "(" + ", ".join(outs) + ")"
-    doc = (f"/-- range of `{designator}` from `{start}…` to `{last}…`; inputs: {', '.join(an['inputs'])}; result: {res}"
+    where = f"from `{start}…` to `{last}…`" if last is not None else f"the one statement `{start}…` (wherever it is nested)"
+    doc = (f"/-- range of `{designator}` {where}; inputs: {', '.join(an['inputs'])}; result: {res}"
            + "".join("; " + n for n in notes)).replace("-/", "- /") + " -/\n"
     return {"lean": f"{doc}def {ident(lean_name)} {params} : PyVal :=\n  {body}\n", "inputs": an["inputs"], "outputs": outs,
             "externals": exts, "oracle": tr.cur_oracle}
